@@ -17,6 +17,23 @@ def err(msg):
     return EngineError(msg)
 
 
+def _unit_items(t):
+    """elements of a sequence term that is literally a concatenation of units (None otherwise)"""
+    if z3.is_app(t) and t.decl().kind() == z3.Z3_OP_SEQ_UNIT:
+        return [t.arg(0)]
+    if z3.is_app(t) and t.decl().kind() == z3.Z3_OP_SEQ_EMPTY:
+        return []
+    if z3.is_app(t) and t.decl().kind() == z3.Z3_OP_SEQ_CONCAT:
+        out = []
+        for ch in t.children():
+            sub = _unit_items(ch)
+            if sub is None:
+                return None
+            out.extend(sub)
+        return out
+    return None
+
+
 def isinstance_check(run, v, cls, node):
     """z3 Bool for isinstance(v, cls) decided from the static encoding of v."""
     if isinstance(cls, VTuple):
@@ -312,6 +329,15 @@ def str_method(run, s, attr, args, kwargs, node):
         seq = ops.iter_to_seq(run, seq, node)
         if seq.ty.elem is not TStr:
             raise err("join over non-str sequence")
+        units = _unit_items(seq.t)
+        if units is not None:
+            # a list of statically known length (e.g. a list display): join is the concatenation with separators
+            parts = []
+            for k, it in enumerate(units):
+                if k:
+                    parts.append(t)
+                parts.append(it)
+            return Val(TStr, (z3.Concat(*parts) if len(parts) > 1 else parts[0]) if parts else z3.StringVal(""))
         return Val(TStr, ops.str_join(t, seq.t))
     if attr == "find":
         return Val(TInt, z3.IndexOf(t, _s(run, args[0], node).t, run.coerce(args[1], TInt).t if len(args) > 1 else 0))
